@@ -759,7 +759,7 @@ def asan_cases(rng):
     out.append({"cfg": norm_cfg({"trig": {2: {"read": 2, "arg": 8}}, "max_stack": 2}),
                 "note": "read + argument in the deepest frame",
                 "script": ["T 1000", "E pg 1", "T 1010", "E pg 2", "T 1020", "X", "T 1030", "X", "END"]})
-    for _ in range(6):
+    for _ in range(4):
         cfg = rand_cfg(rng)
         out.append({"cfg": cfg, "note": "random", "script": gen_script(rng, cfg, nthreads=rng.choice([1, 2]),
                                                                        asyncs=True, kind="mix")})
@@ -776,7 +776,7 @@ def fill_cases(rng):
                 "note": "read + argument / return value",
                 "script": ["T 1000", "E pg 0", "T 1004", "X", "RU 5 100", "SM 1 2 3", "T 1010", "E pg 1", "T 1020",
                            "E pg 2", "T 1030", "RU 6 101", "X", "T 1040", "RU 8 150", "X", "END"]})
-    for _ in range(10):
+    for _ in range(6):
         cfg = rand_cfg(rng)
         out.append({"cfg": cfg, "note": "random", "script": gen_script(rng, cfg, max_calls=8, max_depth=3)})
     return out
@@ -847,7 +847,7 @@ def run(ctx):
     for c in directed_cases():
         c["class"] = "directed"
         cases.append(c)
-    n_clean, n_rand, n_mt = (60, 90, 24) if quick else (1500, 3000, 600)
+    n_clean, n_rand, n_mt = (50, 70, 20) if quick else (1500, 3000, 600)
     for i in range(n_clean):
         cfg = rand_cfg(rng, clean=True)
         cases.append({"cfg": cfg, "class": "clean", "script": gen_script(
@@ -1136,6 +1136,8 @@ def replay(ctx, path):
     bad, which = monitors(c["cfg"], c["script"], stream_of(c["impl"], c["script"]))
     exp = spec_stream(c["cfg"], c["script"])
     print("monitor:", which, bad)
+    differs = False
     if exp is not None:
-        print("specified stream:", exp, "MATCH" if exp == stream_of(c["impl"], c["script"]).get(0, []) else "DIFFERENT")
-    return 1 if bad else 0
+        differs = exp != stream_of(c["impl"], c["script"]).get(0, [])
+        print("specified stream:", exp, "DIFFERENT" if differs else "MATCH")
+    return 1 if (bad or differs or (1, 1, 1) not in c["match"]) else 0
